@@ -6,6 +6,7 @@ import (
 	"go/constant"
 	"go/token"
 	"go/types"
+	"slices"
 	"sort"
 	"strings"
 
@@ -540,6 +541,7 @@ func runC16(p *core.Prog, r *core.Report) {
 		r.Check(len(missing) == 0, rule, p.FuncName(ka), "architecture aliases parse alone", p.Pos(ka.Pos()), "aliases not accepted as an architecture-only platform string: "+strings.Join(missing, ", "))
 	}
 	c16R2(p, r, fn)
+	c16R3R4(p, r)
 }
 
 // c16R2: a Platform parameter is normalised before it is stored into the comparator (or any struct).
@@ -576,5 +578,207 @@ func c16R2(p *core.Prog, r *core.Report, norm *ssa.Function) {
 	}
 	if n == 0 {
 		r.Undecided(rule, "types/platform", "comparator host", "-", "no store of a Platform into the comparator found")
+	}
+}
+
+// c16R3R4: the selection is a fold of the pairwise "better than" over the list. Two shape conditions
+// of that fold are decided; the order laws of the comparison itself are not (see DESIGN.md).
+func c16R3R4(p *core.Prog, r *core.Report) {
+	const rule3, rule4 = "C16.R3", "C16.R4"
+	r.Rule(rule3, "the scan visits every entry: a loop that folds the comparator's Better over a list is left only when the list is exhausted (an early exit makes the result depend on the order of the entries unless the entry it stops at is maximal, which is a statement about values)", 1)
+	r.Rule(rule4, "the fold keeps its best-so-far consistent: the second argument of Better is the loop-carried previous platform; on the true edge it becomes the platform that was the first argument, the kept entry is the element that platform belongs to, and on every other edge both stay what they were", 1)
+	better := func(f *types.Func) bool {
+		return f != nil && f.Name() == "Better" && f.Pkg() != nil && f.Pkg().Path() == modPath("types/platform")
+	}
+	n := 0
+	for _, fn := range p.ModFuncs {
+		if len(fn.Blocks) == 0 || fn.Synthetic != "" {
+			continue
+		}
+		if pk := core.FuncPkg(fn); pk == nil || pk.Path() == modPath("types/platform") {
+			continue
+		}
+		for _, l := range core.Loops(fn) {
+			var call *ssa.Call
+			l.Instrs(func(in ssa.Instruction) {
+				if c, ok := in.(*ssa.Call); ok && better(core.Callee(c)) {
+					call = c
+				}
+			})
+			if call == nil {
+				continue
+			}
+			n++
+			fname := p.FuncName(fn)
+			// R3
+			var early []string
+			for _, e := range l.Exits() {
+				if e[0] == l.Header {
+					continue
+				}
+				pos := "-"
+				for _, in := range append(append([]ssa.Instruction{}, e[0].Instrs...), e[1].Instrs...) {
+					if in.Pos() != token.NoPos {
+						pos = p.Pos(in.Pos())
+					}
+				}
+				early = append(early, pos)
+			}
+			sort.Strings(early)
+			r.Check(len(early) == 0, rule3, fname, "selection loop scans the whole list", p.Pos(call.Pos()),
+				"the loop is left before the list is exhausted at "+strings.Join(early, ", ")+": entries after that point are never compared, so a better entry listed later is passed over")
+			// R4 (phi form of the fold)
+			args := call.Call.Args
+			if len(args) != 3 {
+				continue
+			}
+			target, prev := args[1], args[2]
+			phi, ok := prev.(*ssa.Phi)
+			if !ok || phi.Block() != l.Header {
+				if tphi, isPhi := target.(*ssa.Phi); isPhi && tphi.Block() == l.Header {
+					r.Violated(rule4, fname, "best-so-far update", p.Pos(call.Pos()), "the loop-carried best-so-far is passed as the candidate and the list entry as the previous platform: the arguments of Better are swapped")
+					continue
+				}
+				if _, isConst := prev.(*ssa.Const); isConst {
+					r.Violated(rule4, fname, "best-so-far update", p.Pos(call.Pos()), "every candidate is compared with a constant: the previous platform is never updated, so the last compatible entry wins whatever came before")
+					continue
+				}
+				r.Note("%s: %s keeps its best-so-far in another form than a loop-carried value; fold shape not decided", rule4, fname)
+				r.Held(rule4, fname, "best-so-far kept in a cell", p.Pos(call.Pos()), "fold shape not decided for this form (see notes)")
+				continue
+			}
+			// the edge on which Better was true
+			ifi, ok := core.LastInstr(call.Block()).(*ssa.If)
+			var trueSucc *ssa.BasicBlock
+			if ok {
+				if cnd, pol := core.StripNot(ifi.Cond, true); cnd == ssa.Value(call) {
+					trueSucc = call.Block().Succs[0]
+					if !pol {
+						trueSucc = call.Block().Succs[1]
+					}
+				}
+			}
+			if trueSucc == nil || len(trueSucc.Preds) != 1 {
+				r.Note("%s: %s does not branch on Better directly; fold shape not decided", rule4, fname)
+				r.Held(rule4, fname, "Better not branched on directly", p.Pos(call.Pos()), "fold shape not decided for this form (see notes)")
+				continue
+			}
+			onTrue := func(pred *ssa.BasicBlock) bool { return pred == trueSucc || trueSucc.Dominates(pred) }
+			// the values a header phi takes from inside the loop, with the block each comes from,
+			// looking through the phis of join blocks inside the loop
+			type inc struct {
+				v    ssa.Value
+				from *ssa.BasicBlock
+			}
+			var incoming func(q *ssa.Phi, seen map[*ssa.Phi]bool) []inc
+			incoming = func(q *ssa.Phi, seen map[*ssa.Phi]bool) []inc {
+				var out []inc
+				seen[q] = true
+				for i, ed := range q.Edges {
+					pred := q.Block().Preds[i]
+					if !l.Blocks[pred] {
+						continue
+					}
+					if in, ok := ed.(*ssa.Phi); ok && in.Block() != l.Header && l.Blocks[in.Block()] && !seen[in] {
+						out = append(out, incoming(in, seen)...)
+						continue
+					}
+					out = append(out, inc{ed, pred})
+				}
+				return out
+			}
+			// structural equality of two pure load expressions
+			var same func(a, b ssa.Value, d int) bool
+			same = func(a, b ssa.Value, d int) bool {
+				if a == b {
+					return true
+				}
+				if d > 8 {
+					return false
+				}
+				switch x := a.(type) {
+				case *ssa.UnOp:
+					y, ok := b.(*ssa.UnOp)
+					return ok && x.Op == y.Op && same(x.X, y.X, d+1)
+				case *ssa.FieldAddr:
+					y, ok := b.(*ssa.FieldAddr)
+					return ok && x.Field == y.Field && same(x.X, y.X, d+1)
+				case *ssa.Field:
+					y, ok := b.(*ssa.Field)
+					return ok && x.Field == y.Field && same(x.X, y.X, d+1)
+				case *ssa.IndexAddr:
+					y, ok := b.(*ssa.IndexAddr)
+					return ok && same(x.X, y.X, d+1) && same(x.Index, y.Index, d+1)
+				}
+				return false
+			}
+			// the element the candidate platform belongs to: target = *(*(&E.Platform))
+			var elem ssa.Value
+			if u, ok := target.(*ssa.UnOp); ok && u.Op == token.MUL {
+				if u2, ok := u.X.(*ssa.UnOp); ok && u2.Op == token.MUL {
+					if fa, ok := u2.X.(*ssa.FieldAddr); ok {
+						elem = fa.X
+					}
+				}
+			}
+			var bad []string
+			for _, e := range incoming(phi, map[*ssa.Phi]bool{}) {
+				if onTrue(e.from) {
+					if !same(e.v, target, 0) {
+						bad = append(bad, "after Better says yes the previous platform becomes something else than the platform just compared")
+					}
+				} else if e.v != ssa.Value(phi) {
+					bad = append(bad, "the previous platform changes on a path where Better did not say yes")
+				}
+			}
+			// the kept entry: every other loop-carried value that changes exactly where Better says yes
+			kept := 0
+			for _, in := range l.Header.Instrs {
+				q, ok := in.(*ssa.Phi)
+				if !ok || q == phi {
+					continue
+				}
+				if bt, isBasic := q.Type().Underlying().(*types.Basic); isBasic && bt.Info()&types.IsBoolean != 0 {
+					continue
+				}
+				es := incoming(q, map[*ssa.Phi]bool{})
+				onlyOnTrue, changes := true, false
+				for _, e := range es {
+					if onTrue(e.from) {
+						changes = changes || e.v != ssa.Value(q)
+					} else if e.v != ssa.Value(q) {
+						onlyOnTrue = false
+					}
+				}
+				if !onlyOnTrue || !changes || elem == nil {
+					continue
+				}
+				kept++
+				for _, e := range es {
+					if !onTrue(e.from) {
+						continue
+					}
+					ok := same(e.v, elem, 0)
+					if u, isLoad := e.v.(*ssa.UnOp); isLoad && u.Op == token.MUL && same(u.X, elem, 0) {
+						ok = true
+					}
+					if ia, isIdx := elem.(*ssa.IndexAddr); isIdx && same(e.v, ia.Index, 0) {
+						ok = true
+					}
+					if !ok {
+						bad = append(bad, "the entry kept after Better says yes ("+q.Comment+") is not the element whose platform was compared")
+					}
+				}
+			}
+			if kept == 0 {
+				r.Note("%s: %s keeps no entry value next to the previous platform; only the platform update is decided", rule4, fname)
+			}
+			sort.Strings(bad)
+			bad = slices.Compact(bad)
+			r.Check(len(bad) == 0, rule4, fname, "best-so-far update", p.Pos(call.Pos()), strings.Join(bad, "; "))
+		}
+	}
+	if n == 0 {
+		r.MissingAnchor(rule3, "a loop that folds platform.Better over a list")
 	}
 }
